@@ -225,6 +225,7 @@ func genShopExtras(t *rapid.T, hasUtil bool) shopExtras {
 
 // moreTests: further test methods for a test class: two groups of five calls whose assertion
 // group is written first, a redundant assertion, a sleep in a helper.
+// (kind 10: four groups of five calls, two of them assertions)
 func extraTestMethod(w *jw, kind, i int) {
 	switch kind {
 	case 8:
@@ -241,7 +242,7 @@ func extraTestMethod(w *jw, kind, i int) {
 	default:
 		w.f("    @Test\n    public void threeGroups%d() {\n        OrderRepo repo = new OrderRepo();\n", i)
 		for l := 0; l < 5; l++ {
-			w.f("        repo.save(new Order());\n        repo.drop(%d);\n        assertTrue(true);\n", l)
+			w.f("        repo.save(new Order());\n        repo.drop(%d);\n        assertTrue(true);\n        assertEquals(%d, repo.count());\n", l, l)
 		}
 		w.f("    }\n\n")
 	}
